@@ -3,10 +3,14 @@ C05 — sufficient statistics follow the stochastic-approximation schedule.
 Property theorems only (helper lemmas are private).  Model: `Model/Saem.lean`.
 -/
 import LeaspyVerif.Model.Saem
+import LeaspyVerif.Lemmas.Saem
 import Mathlib.Analysis.SpecialFunctions.Pow.Real
 import Mathlib.Analysis.PSeries
 import Mathlib.Tactic.Ring
 import Mathlib.Tactic.Linarith
+import Mathlib.Tactic.FieldSimp
+import Mathlib.Algebra.Order.Floor.Ring
+import Mathlib.Data.Rat.Floor
 
 namespace LeaspyVerif.C05
 open LeaspyVerif.Saem
@@ -155,6 +159,974 @@ theorem robbins_monro_iff (p : ℝ) :
   constructor
   · rintro ⟨a, b⟩; constructor <;> linarith
   · rintro ⟨a, b⟩; constructor <;> [linarith; linarith]
+
+/-! ## Part 2 — unrolled form of the averaged statistic, its weights -/
+
+/-- Over a field the complement the code computes (`1.0 - burn_in_step`) is `1 - e`: the update written with
+    both weights (`stepStatsW`, what runs on float32 tensors) is the update of Part 1. -/
+theorem stepStatsW_eq (e : Nat → α) (nb k : Nat) (prev s : α) :
+    stepStatsW e (fun j => 1 - e j) nb k prev s = stepStats e nb k prev s := rfl
+
+/-- **Unrolled form.**  Whatever the run length, the burn-in length, the step sizes and the statistics: the
+    statistic handed to the maximisation at iteration `k+1` is `Σ_j weight (k+1) j · s_j` with the explicit
+    product weights of `Saem.weight` (in particular it does not depend on `s_j` for `j > k+1`: their weight is 0,
+    `weight_future_zero`). -/
+theorem stats_unrolled (e : Nat → α) (nb : Nat) (ss : List α) (k : Nat) (hk : k < ss.length) :
+    ((run e nb ss).map Prod.fst)[k]? = some (unrolled e (fun j => 1 - e j) nb (k + 1) ss) := by
+  have hne : ss ≠ [] := by intro h; subst h; simp at hk
+  obtain ⟨p, _⟩ := List.exists_mem_of_ne_nil ss hne
+  rw [List.getElem?_map, run_getElem? e nb ss p k hk]
+  simp only [Option.map_some, Option.some.injEq]
+  have hlen : (ss.take (k + 1)).length = k + 1 := by simp; omega
+  have hne' : ss.take (k + 1) ≠ [] := by intro h; rw [h] at hlen; simp at hlen
+  rw [finalStat_eq_weightedSum e nb p _ hne', hlen]
+  unfold unrolled
+  conv_rhs => rw [← List.take_append_drop (k + 1) ss]
+  rw [weightedSum_append, hlen]
+  rw [weightedSum_zero _ (ss.drop (k + 1)) _ (fun i h1 _ => by
+    unfold weight
+    by_cases h : k + 1 ≤ nb + 1
+    · have : ¬ (i = k + 1) := by omega
+      simp [h, this]
+    · have : k + 1 < i := by omega
+      simp [h, this])]
+  simp
+
+/-- closed form of the weights after the memory-less phase: the reset iteration `nb+1` enters with 1, a later
+    iteration `j` with its step `e (j-nb)`, and each is multiplied by the complement `1 - e (i-nb)` of every later
+    iteration `i = j+1 … k`. -/
+theorem weight_closed_form (e : Nat → α) (nb k j : Nat) (hj : nb + 1 ≤ j) (hjk : j ≤ k) (hk : nb + 2 ≤ k) :
+    weight e (fun j => 1 - e j) nb k j
+      = (if j = nb + 1 then 1 else e (j - nb)) * ((List.range' (j + 1) (k - j)).map (fun i => 1 - e (i - nb))).prod := by
+  have key : ∀ (w : α) (l : List Nat), l.foldl (fun acc i => acc * (1 - e (i - nb))) w
+      = w * (l.map (fun i => 1 - e (i - nb))).prod := by
+    intro w l
+    induction l generalizing w with
+    | nil => simp
+    | cons a l ih => simp only [List.foldl_cons, ih, List.map_cons, List.prod_cons]; ring
+  unfold weight decay
+  have h1 : ¬ (k ≤ nb + 1) := by omega
+  have h2 : ¬ (j ≤ nb ∨ k < j) := by omega
+  simp only [h1, h2, if_false]
+  split <;> exact key _ _
+
+/-- Nothing of the memory-less phase is left from the reset iteration on: for every `k ≥ nb+1` the statistics of
+    the iterations `j ≤ nb` have weight exactly 0. -/
+theorem weight_burnin_zero (e c : Nat → α) (nb k j : Nat) (hj : j ≤ nb) (hk : nb + 1 ≤ k) :
+    weight e c nb k j = 0 := by
+  unfold weight
+  by_cases h : k ≤ nb + 1
+  · have : ¬ (j = k) := by omega
+    simp [h, this]
+  · simp [h, hj]
+
+/-- No look-ahead: later statistics have weight 0. -/
+theorem weight_future_zero (e c : Nat → α) (nb k j : Nat) (hj : k < j) : weight e c nb k j = 0 := by
+  unfold weight
+  by_cases h : k ≤ nb + 1
+  · have : ¬ (j = k) := by omega
+    simp [h, this]
+  · simp [h, hj]
+
+/-- The weights are a probability vector (1): each lies in `[0, 1]` as soon as the step sizes do. -/
+theorem weight_in_unit (e : Nat → α) (nb k j : Nat) (he : ∀ i, 0 ≤ e i ∧ e i ≤ 1) :
+    0 ≤ weight e (fun j => 1 - e j) nb k j ∧ weight e (fun j => 1 - e j) nb k j ≤ 1 := by
+  have key : ∀ (l : List Nat) (w : α), 0 ≤ w → w ≤ 1 →
+      0 ≤ l.foldl (fun acc i => acc * (1 - e (i - nb))) w ∧ l.foldl (fun acc i => acc * (1 - e (i - nb))) w ≤ 1 := by
+    intro l
+    induction l with
+    | nil => intro w h0 h1; exact ⟨h0, h1⟩
+    | cons a l ih =>
+      intro w h0 h1
+      simp only [List.foldl_cons]
+      obtain ⟨ha0, ha1⟩ := he (a - nb)
+      apply ih
+      · exact mul_nonneg h0 (by linarith)
+      · calc w * (1 - e (a - nb)) ≤ 1 * 1 := by
+              apply mul_le_mul h1 (by linarith) (by linarith) (by linarith)
+          _ = 1 := by ring
+  unfold weight decay
+  split
+  · split <;> simp
+  · split
+    · simp
+    · split
+      · exact key _ 1 (by simp) (le_refl _)
+      · exact key _ _ (he _).1 (he _).2
+
+/-- The weights are a probability vector (2): those of the iterations `1 … k` sum to exactly 1, for every
+    iteration `k ≥ 1`, burn-in length and step sequence (no hypothesis on the steps). -/
+theorem weight_sum_one (e : Nat → α) (nb k : Nat) (hk : 1 ≤ k) :
+    ((List.range k).map (fun j => weight e (fun j => 1 - e j) nb k (j + 1))).sum = 1 := by
+  -- `Σ_j w_j · 1` is the statistic of a run fed the constant 1, which stays 1
+  have hws : ∀ (w : Nat → α) (n j : Nat),
+      weightedSum w j (List.replicate n (1 : α)) = ((List.range n).map (fun i => w (j + i))).sum := by
+    intro w n
+    induction n with
+    | zero => intro j; simp [weightedSum]
+    | succ n ih =>
+      intro j
+      rw [List.replicate_succ, weightedSum, ih (j + 1), List.range_succ_eq_map]
+      simp [Function.comp_def, Nat.add_assoc, Nat.add_comm 1]
+  have hconst : ∀ (n : Nat) (k0 : Nat), finalStat e nb k0 (1 : α) (List.replicate n 1) = 1 := by
+    intro n
+    induction n with
+    | zero => intro k0; simp [finalStat]
+    | succ n ih =>
+      intro k0
+      rw [List.replicate_succ, finalStat]
+      have : stepStats e nb k0 (1 : α) 1 = 1 := by
+        unfold stepStats; split <;> ring
+      rw [this, ih]
+  have h := finalStat_eq_weightedSum e nb (1 : α) (List.replicate k 1) (by
+    intro h; have := congrArg List.length h; simp at this; omega)
+  rw [hconst, List.length_replicate, hws] at h
+  simpa [Nat.add_comm 1] using h.symm
+
+/-! ## Part 3 — the step sizes -/
+
+/-- `power = 1` (steps `1/j`): from the reset iteration on, the statistic used is the **arithmetic running mean**
+    of the statistics since the end of the memory-less phase, exactly, for every run. -/
+theorem power_one_running_mean (nb : Nat) (ss : List α) (k : Nat) (hk : k < ss.length) (hnb : nb ≤ k) :
+    ((run (fun j => (1 : α) / j) nb ss).map Prod.fst)[k]?
+      = some (((ss.take (k + 1)).drop nb).sum / ((k + 1 - nb : Nat) : α)) := by
+  have hne : ss ≠ [] := by intro h; subst h; simp at hk
+  obtain ⟨p, _⟩ := List.exists_mem_of_ne_nil ss hne
+  rw [List.getElem?_map, run_getElem? _ nb ss p k hk]
+  simp only [Option.map_some, Option.some.injEq]
+  have hlen : (ss.take (k + 1)).length = k + 1 := by simp; omega
+  generalize ss.take (k + 1) = xs at hlen
+  -- induction on the prefix, from the right
+  have key : ∀ (xs : List α), nb + 1 ≤ xs.length →
+      finalStat (fun j => (1 : α) / j) nb 1 p xs = (xs.drop nb).sum / ((xs.length - nb : Nat) : α) := by
+    intro xs
+    induction xs using List.reverseRecOn with
+    | nil => intro h; simp at h
+    | append_singleton ys s ih =>
+      intro hl
+      simp only [List.length_append, List.length_cons, List.length_nil] at hl ⊢
+      rw [finalStat_snoc]
+      by_cases hreset : ys.length = nb
+      · have hst : stepStats (fun j => (1 : α) / j) nb (1 + ys.length) (finalStat (fun j : ℕ => (1 : α) / j) nb 1 p ys) s = s := by
+          unfold stepStats memoryless isBurnIn
+          simp [hreset]
+        rw [hst, List.drop_append_of_le_length (by omega), List.drop_of_length_le (by omega)]
+        have : ys.length + 1 - nb = 1 := by omega
+        simp [this]
+      · have hst : stepStats (fun j => (1 : α) / j) nb (1 + ys.length) (finalStat (fun j : ℕ => (1 : α) / j) nb 1 p ys) s
+            = finalStat (fun j : ℕ => (1 : α) / j) nb 1 p ys * (1 - 1 / ((1 + ys.length - nb : Nat) : α))
+              + 1 / ((1 + ys.length - nb : Nat) : α) * s := by
+          unfold stepStats memoryless isBurnIn
+          have h1 : ¬ (1 + ys.length ≤ nb) := by omega
+          have h2 : ¬ (ys.length = nb) := hreset
+          simp [h1, h2]
+        rw [hst, ih (by omega), List.drop_append_of_le_length (by omega)]
+        simp only [List.sum_append, List.sum_cons, List.sum_nil, add_zero]
+        have e1 : 1 + ys.length - nb = (ys.length - nb) + 1 := by omega
+        have e2 : ys.length + 1 - nb = (ys.length - nb) + 1 := by omega
+        rw [e1, e2]
+        have hm : ((ys.length - nb : Nat) : α) ≠ 0 := by
+          have : 0 < ys.length - nb := by omega
+          exact_mod_cast this.ne'
+        have hm1 : ((ys.length - nb : Nat) : α) + 1 ≠ 0 := Nat.cast_add_one_ne_zero _
+        push_cast
+        field_simp
+        ring
+  rw [key xs (by omega), hlen]
+
+/-- `power = 1`: the weights are uniform, `1/(k-nb)` for each of the iterations `nb+1 … k`. -/
+theorem power_one_weights_uniform (nb k j : Nat) (hj : nb + 1 ≤ j) (hjk : j ≤ k) :
+    weight (fun j => (1 : α) / j) (fun j => 1 - (1 : α) / j) nb k j = 1 / ((k - nb : Nat) : α) := by
+  induction k with
+  | zero => omega
+  | succ k ih =>
+    by_cases hjk' : j = k + 1
+    · subst hjk'
+      by_cases h : k + 1 = nb + 1
+      · have : k + 1 - nb = 1 := by omega
+        rw [weight_memoryless _ _ _ _ _ (by omega), this]; simp
+      · rw [weight_self _ _ _ _ (by omega)]
+    · have hle : j ≤ k := by omega
+      rw [weight_succ _ _ _ _ _ (by omega) hle, ih hle]
+      have e1 : k + 1 - nb = (k - nb) + 1 := by omega
+      rw [e1]
+      have hm : ((k - nb : Nat) : α) ≠ 0 := by
+        have : 0 < k - nb := by omega
+        exact_mod_cast this.ne'
+      have hm1 : ((k - nb : Nat) : α) + 1 ≠ 0 := Nat.cast_add_one_ne_zero _
+      push_cast
+      field_simp
+      ring
+
+/-- A step equal to 1 means no memory: the statistic used is the current one, whatever was kept. -/
+theorem step_one_no_memory (e : Nat → α) (nb k : Nat) (prev s : α) (h : e (k - nb) = 1) :
+    stepStats e nb k prev s = s := by
+  unfold stepStats; split
+  · rfl
+  · rw [h]; ring
+
+/-- `power = 0` would mean `e ≡ 1`: the whole run is memory-less, the averaged statistics are the current ones
+    at every iteration (the constructor refuses it: `robbins_monro_iff`). -/
+theorem constant_step_one_run (e : Nat → α) (nb : Nat) (ss : List α) (h : ∀ j, e j = 1) :
+    (run e nb ss).map Prod.fst = ss := by
+  have key : ∀ (ss : List α) (k : Nat) (prev : α), (runFrom e nb k prev ss).map Prod.fst = ss := by
+    intro ss
+    induction ss with
+    | nil => intro k prev; simp [runFrom]
+    | cons s ss ih =>
+      intro k prev
+      simp only [runFrom, List.map_cons, ih, step_one_no_memory e nb k prev s (h _)]
+  cases ss with
+  | nil => simp [run]
+  | cons s ss => simpa [run] using key (s :: ss) 1 s
+
+/-- The reset at iteration `nb+1` *is* a convex step with step size 1 (`1^(-p) = 1`, `step_size_first_is_one`):
+    with `e 1 = 1` the convex formula holds from iteration `nb+1` on, not only from `nb+2`. -/
+theorem reset_is_unit_step (e : Nat → α) (nb k : Nat) (prev s : α) (h1 : e 1 = 1) (hk : nb + 1 ≤ k) :
+    stepStats e nb k prev s = (1 - e (k - nb)) * prev + e (k - nb) * s := by
+  by_cases h : nb + 2 ≤ k
+  · exact stats_convex e nb k prev s h
+  · have : k = nb + 1 := by omega
+    subst this
+    rw [stats_memoryless e nb _ prev s (le_refl _)]
+    have : nb + 1 - nb = 1 := by omega
+    rw [this, h1]; ring
+
+/-- the documented step size of the first iteration after the memory-less phase is exactly 1, for every power -/
+theorem step_size_first_is_one (p : ℝ) : ((1 : ℕ) : ℝ) ^ (-p) = 1 := by simp
+
+/-- for `power = 0` every step is 1 (no memory at all, `constant_step_one_run`) -/
+theorem step_size_power_zero (j : Nat) : (j : ℝ) ^ (-(0 : ℝ)) = 1 := by simp
+
+/-- for `power = 1` the steps are `1/j` (the running mean, `power_one_running_mean`) -/
+theorem step_size_power_one (j : Nat) : (j : ℝ) ^ (-(1 : ℝ)) = 1 / j := by
+  rw [Real.rpow_neg (Nat.cast_nonneg j), Real.rpow_one, one_div]
+
+/-- for every positive power the steps are strictly decreasing in the iteration -/
+theorem step_size_strict_anti (p : ℝ) (hp : 0 < p) (j j' : Nat) (hj : 1 ≤ j) (hjj : j < j') :
+    (j' : ℝ) ^ (-p) < (j : ℝ) ^ (-p) := by
+  have h0 : (0 : ℝ) < j := by exact_mod_cast hj
+  have h1 : (j : ℝ) < j' := by exact_mod_cast hjj
+  exact Real.rpow_lt_rpow_of_neg h0 h1 (by linarith)
+
+/-- … and tend to 0: old statistics are eventually weighted only through the products of complements -/
+theorem step_size_tendsto_zero (p : ℝ) (hp : 0 < p) :
+    Filter.Tendsto (fun j : ℕ => (j : ℝ) ^ (-p)) Filter.atTop (nhds 0) :=
+  (tendsto_rpow_neg_atTop hp).comp tendsto_natCast_atTop_atTop
+
+/-- the form used in `robbins_monro_iff` is the documented step size -/
+theorem step_size_eq_inv (j : Nat) (p : ℝ) : ((j : ℝ) ^ p)⁻¹ = (j : ℝ) ^ (-p) :=
+  (Real.rpow_neg (Nat.cast_nonneg j) p).symm
+
+/-! ## Part 4 — statistics as a dictionary of tensors: the update is key-wise and entry-wise -/
+
+section Dicts
+variable {κ : Type} [DecidableEq κ]
+
+/-- Entry-wise: on tensors of equal length the update of one key is the scalar convex update of every entry. -/
+theorem convexT_entrywise (ej cj : α) (v s : List α) (h : v.length = s.length) :
+    convexT ej cj v s = some (List.zipWith (fun a b => a * cj + ej * b) v s) := by
+  unfold convexT bAdd
+  simp [h, List.zipWith_map]
+
+/-- Shapes: the update of a key fails (torch `RuntimeError`) exactly when the two lengths differ and neither is 1. -/
+theorem convexT_error_iff (ej cj : α) (v s : List α) :
+    convexT ej cj v s = none ↔ v.length ≠ s.length ∧ v.length ≠ 1 ∧ s.length ≠ 1 := by
+  unfold convexT bAdd
+  by_cases h : v.length = s.length
+  · simp [h]
+  · simp only [List.length_map, h, if_false]
+    match v, s with
+    | [a], s => simp
+    | [], [b] => simp
+    | _ :: _ :: _, [b] => simp
+    | [], [] => simp at h
+    | [], _ :: _ :: _ => simp
+    | _ :: _ :: _, [] => simp
+    | _ :: _ :: _, _ :: _ :: _ => simp; simpa using h
+
+/-- Observation (silent broadcasting, 1): new statistics of length 1 against a kept tensor of another length are
+    repeated over every kept entry — no error. -/
+theorem convexT_broadcast_new (ej cj b : α) (v : List α) :
+    convexT ej cj v [b] = some (v.map (fun a => a * cj + ej * b)) := by
+  unfold convexT bAdd
+  by_cases h : v.length = 1
+  · match v, h with
+    | [a], _ => simp
+  · simp only [List.length_map, List.length_cons, List.length_nil, h, if_false, List.map_cons, List.map_nil]
+    match v, h with
+    | [], _ => simp
+    | _ :: _ :: _, _ => simp
+
+/-- Observation (silent broadcasting, 2): a kept tensor of length 1 takes the length of the new statistics — the
+    shape of the kept statistic changes in the middle of a run, no error. -/
+theorem convexT_broadcast_old (ej cj a : α) (s : List α) :
+    convexT ej cj [a] s = some (s.map (fun b => a * cj + ej * b)) := by
+  unfold convexT bAdd
+  by_cases h : s.length = 1
+  · match s, h with
+    | [b], _ => simp
+  · have h' : ¬ (1 = s.length) := fun h'' => h h''.symm
+    simp [h']
+
+/-- Key-wise (1): a successful update keeps exactly the keys of the KEPT dictionary, in the same order — a key
+    that only the new statistics have is silently dropped. -/
+theorem mstepD_keys (ej cj : α) (new old r : Dict κ α) (h : mstepD ej cj new old = .ok r) :
+    r.map Prod.fst = old.map Prod.fst := by
+  induction old generalizing r with
+  | nil => simp [mstepD] at h; subst h; rfl
+  | cons kv old ih =>
+    obtain ⟨k, v⟩ := kv
+    simp only [mstepD] at h
+    split at h
+    · cases h
+    · split at h
+      · cases h
+      · split at h
+        · cases h
+        · rename_i r' hr'
+          cases h
+          simp [ih r' hr']
+
+/-- Key-wise (2): every entry of the result is the update of the kept value of ITS key with the new value of
+    that same key; keys never mix, and no other entry of either dictionary is read. -/
+theorem mstepD_keywise (ej cj : α) (new old r : Dict κ α) (h : mstepD ej cj new old = .ok r) :
+    List.Forall₂ (fun o n => n.1 = o.1 ∧ ∃ s, lookup o.1 new = some s ∧ convexT ej cj o.2 s = some n.2) old r := by
+  induction old generalizing r with
+  | nil => simp [mstepD] at h; subst h; exact .nil
+  | cons kv old ih =>
+    obtain ⟨k, v⟩ := kv
+    simp only [mstepD] at h
+    split at h
+    · cases h
+    · rename_i s hs
+      split at h
+      · cases h
+      · rename_i t ht
+        split at h
+        · cases h
+        · rename_i r' hr'
+          cases h
+          exact .cons ⟨rfl, s, hs, ht⟩ (ih r' hr')
+
+/-- Key-wise (3), as a look-up: the value the result holds for a key is determined by the values of that key. -/
+theorem mstepD_lookup (ej cj : α) (new old r : Dict κ α) (h : mstepD ej cj new old = .ok r) (key : κ) :
+    lookup key r = (lookup key old).bind (fun v => (lookup key new).bind (convexT ej cj v)) := by
+  induction old generalizing r with
+  | nil => simp [mstepD] at h; subst h; rfl
+  | cons kv old ih =>
+    obtain ⟨k, v⟩ := kv
+    simp only [mstepD] at h
+    split at h
+    · cases h
+    · rename_i s hs
+      split at h
+      · cases h
+      · rename_i t ht
+        split at h
+        · cases h
+        · rename_i r' hr'
+          cases h
+          simp only [lookup]
+          by_cases hk : k = key
+          · subst hk; simp [hs, ht]
+          · simp [hk, ih r' hr']
+
+/-- Success, both directions: the update succeeds iff every kept key is present in the new statistics with a
+    broadcastable shape. -/
+theorem mstepD_ok_iff (ej cj : α) (new old : Dict κ α) :
+    (∃ r, mstepD ej cj new old = .ok r)
+      ↔ ∀ kv ∈ old, ∃ s, lookup kv.1 new = some s ∧ convexT ej cj kv.2 s ≠ none := by
+  induction old with
+  | nil => simp [mstepD]
+  | cons kv old ih =>
+    obtain ⟨k, v⟩ := kv
+    simp only [List.mem_cons, forall_eq_or_imp]
+    cases hs : lookup k new with
+    | none => simp [mstepD, hs]
+    | some s =>
+      cases ht : convexT ej cj v s with
+      | none => simp [mstepD, hs, ht]
+      | some t =>
+        cases hr : mstepD ej cj new old with
+        | error err =>
+          have hno : ¬ ∃ r, mstepD ej cj new old = .ok r := by simp [hr]
+          simp only [mstepD, hs, ht, hr]
+          constructor
+          · rintro ⟨r, h⟩; cases h
+          · rintro ⟨_, hall⟩; exact absurd (ih.mpr hall) hno
+        | ok r' =>
+          simp only [mstepD, hs, ht, hr]
+          constructor
+          · intro _; exact ⟨⟨s, rfl, by simp [ht]⟩, ih.mp ⟨r', hr⟩⟩
+          · intro _; exact ⟨_, rfl⟩
+
+/-- Failure, both directions and with the exact exception: the update raises `err` iff the FIRST kept key that
+    cannot be updated is missing from the new statistics (`KeyError`) or has a non-broadcastable shape
+    (`RuntimeError`); all kept keys before it are fine.  In particular it never raises anything else. -/
+theorem mstepD_error_iff (ej cj : α) (new old : Dict κ α) (err : RunErr) :
+    mstepD ej cj new old = .error err
+      ↔ ∃ pre k v post, old = pre ++ (k, v) :: post
+          ∧ (∀ kv ∈ pre, ∃ s, lookup kv.1 new = some s ∧ convexT ej cj kv.2 s ≠ none)
+          ∧ ((err = .keyError ∧ lookup k new = none)
+             ∨ (err = .runtimeError ∧ ∃ s, lookup k new = some s ∧ convexT ej cj v s = none)) := by
+  induction old with
+  | nil => simp [mstepD]
+  | cons kv old ih =>
+    obtain ⟨k, v⟩ := kv
+    constructor
+    · intro h
+      simp only [mstepD] at h
+      split at h
+      · rename_i hs
+        cases h
+        exact ⟨[], k, v, old, rfl, by simp, Or.inl ⟨rfl, hs⟩⟩
+      · rename_i s hs
+        split at h
+        · rename_i ht
+          cases h
+          exact ⟨[], k, v, old, rfl, by simp, Or.inr ⟨rfl, s, hs, ht⟩⟩
+        · rename_i t ht
+          split at h
+          · rename_i err' hr'
+            cases h
+            obtain ⟨pre, k', v', post, ho, hpre, hc⟩ := ih.mp hr'
+            refine ⟨(k, v) :: pre, k', v', post, by simp [ho], ?_, hc⟩
+            intro kv hkv
+            rcases List.mem_cons.mp hkv with h | h
+            · subst h; exact ⟨s, hs, by simp [ht]⟩
+            · exact hpre kv h
+          · cases h
+    · rintro ⟨pre, k', v', post, ho, hpre, hc⟩
+      cases pre with
+      | nil =>
+        simp only [List.nil_append, List.cons.injEq, Prod.mk.injEq] at ho
+        obtain ⟨⟨rfl, rfl⟩, rfl⟩ := ho
+        rcases hc with ⟨rfl, hs⟩ | ⟨rfl, s, hs, ht⟩
+        · simp [mstepD, hs]
+        · simp [mstepD, hs, ht]
+      | cons x pre =>
+        simp only [List.cons_append, List.cons.injEq] at ho
+        obtain ⟨rfl, rfl⟩ := ho
+        obtain ⟨s, hs, ht⟩ := hpre (k, v) (by simp)
+        have hrest := ih.mpr ⟨pre, k', v', post, rfl, fun kv h => hpre kv (by simp [h]), hc⟩
+        cases ht' : convexT ej cj v s with
+        | none => exact absurd ht' ht
+        | some t => simp [mstepD, hs, ht', hrest]
+
+/-- Keys that only the new statistics have are irrelevant (and their values never read): two new dictionaries
+    that agree on the kept keys give the same result, error included; so does any reordering of the new one. -/
+theorem mstepD_ignores_other_keys (ej cj : α) (new new' old : Dict κ α)
+    (h : ∀ kv ∈ old, lookup kv.1 new' = lookup kv.1 new) :
+    mstepD ej cj new' old = mstepD ej cj new old := by
+  induction old with
+  | nil => rfl
+  | cons kv old ih =>
+    obtain ⟨k, v⟩ := kv
+    simp only [mstepD]
+    rw [h (k, v) (by simp), ih (fun kv hkv => h kv (by simp [hkv]))]
+
+/-- During the memory-less phase (and at the reset iteration) the kept dictionary is REPLACED by the new one —
+    key set, order and shapes included — whatever was kept. -/
+theorem stepD_memoryless (e c : Nat → α) (nb : Int) (k : Nat) (st : Option (Dict κ α)) (new : Dict κ α)
+    (h : (k : Int) ≤ nb + 1) : stepD e c nb k st new = .ok new := by
+  unfold stepD memorylessZ isBurnInZ
+  by_cases h1 : (k : Int) ≤ nb
+  · simp [h1]
+  · have : (k : Int) = 1 + nb := by omega
+    simp [this]
+
+/-- the signed tests restricted to a non-negative count are those of Part 1 -/
+theorem memorylessZ_natCast (k nb : Nat) :
+    memorylessZ k (nb : Int) = memoryless k nb ∧ isBurnInZ k (nb : Int) = isBurnIn k nb
+      ∧ lagZ k (nb : Int) = k - nb := by
+  refine ⟨?_, ?_, ?_⟩
+  · unfold memorylessZ memoryless isBurnInZ isBurnIn
+    have h1 : decide ((k : Int) ≤ (nb : Int)) = decide (k ≤ nb) := by simp
+    have h2 : decide ((k : Int) = 1 + (nb : Int)) = (k == 1 + nb) := by
+      rw [Bool.eq_iff_iff]; simp; omega
+    rw [h1, h2]
+  · unfold isBurnInZ isBurnIn; simp
+  · unfold lagZ; omega
+
+private theorem stepD_first_negative {κ : Type} [DecidableEq κ] (e c : Nat → α) (nb : Int) (s : Dict κ α)
+    (hnb : nb < 0) : stepD e c nb 1 none s = .error .attributeError := by
+  unfold stepD memorylessZ isBurnInZ
+  have h1 : decide (((1 : Nat) : Int) ≤ nb) = false := by simp; omega
+  have h2 : decide (((1 : Nat) : Int) = 1 + nb) = false := by simp; omega
+  simp only [h1, h2, Bool.or_false, Bool.false_eq_true, if_false]
+
+/-- **Finding F27, run side.**  With a negative memory-less count — which the constructor accepted before 9714692
+    (`negative_burn_in_accepted_counterexample`) and now refuses (`negative_burn_in_refused`); it can still be
+    assigned after construction — no iteration is memory-less, so the very first one takes the convex branch on
+    the `None` left by `FitAlgorithm.__init__`: every non-empty run aborts at iteration 1 with `AttributeError`,
+    before any maximisation.  And that is the only way to get this exception
+    (⇒ `accepted_never_attributeError`). -/
+theorem runD_attributeError_iff (e c : Nat → α) (nb : Int) (ss : List (Dict κ α)) :
+    (runD e c nb ss).err = some .attributeError ↔ (nb < 0 ∧ ss ≠ []) := by
+  have hsome : ∀ (ss : List (Dict κ α)) (k : Nat) (S : Dict κ α),
+      (runDFrom e c nb k (some S) ss).err ≠ some .attributeError := by
+    intro ss
+    induction ss with
+    | nil => intro k S; simp [runDFrom]
+    | cons s ss ih =>
+      intro k S
+      simp only [runDFrom]
+      cases hst : stepD e c nb k (some S) s with
+      | error err =>
+        simp only [ne_eq, Option.some.injEq]
+        intro herr; subst herr
+        unfold stepD at hst
+        split at hst
+        · cases hst
+        · have := (mstepD_error_iff (e (lagZ k nb)) (c (lagZ k nb)) s S .attributeError).mp hst
+          obtain ⟨_, _, _, _, _, _, h | h⟩ := this <;> simp at h
+      | ok S' => simpa using ih (k + 1) S'
+  constructor
+  · intro h
+    cases ss with
+    | nil => simp [runD, runDFrom] at h
+    | cons s ss =>
+      refine ⟨?_, by simp⟩
+      by_contra hnb
+      have hm : stepD e c nb 1 none s = .ok s := stepD_memoryless e c nb 1 none s (by omega)
+      simp only [runD, runDFrom, hm] at h
+      exact hsome ss 2 s h
+  · rintro ⟨hnb, hne⟩
+    cases ss with
+    | nil => exact absurd rfl hne
+    | cons s ss =>
+      have := stepD_first_negative e c nb s hnb
+      simp [runD, runDFrom, this]
+
+/-- … and then nothing at all was handed to the maximisation. -/
+theorem runD_negative_no_maximisation (e c : Nat → α) (nb : Int) (ss : List (Dict κ α)) (hnb : nb < 0) :
+    (runD e c nb ss).calls = [] := by
+  cases ss with
+  | nil => simp [runD, runDFrom]
+  | cons s ss =>
+    have := stepD_first_negative e c nb s hnb
+    simp [runD, runDFrom, this]
+
+/-- A run either completes (as many maximisations as iterations) or stops at the first failing iteration; the
+    `burn_in` flags of the maximisations performed are `k ≤ nb`. -/
+theorem runD_calls (e c : Nat → α) (nb : Int) (ss : List (Dict κ α)) :
+    ((runD e c nb ss).err = none → (runD e c nb ss).calls.length = ss.length)
+    ∧ (runD e c nb ss).calls.length ≤ ss.length
+    ∧ (runD e c nb ss).calls.map Prod.snd
+        = (List.range (runD e c nb ss).calls.length).map (fun i => decide (((i + 1 : Nat) : Int) ≤ nb)) := by
+  have key : ∀ (ss : List (Dict κ α)) (k : Nat) (st : Option (Dict κ α)),
+      ((runDFrom e c nb k st ss).err = none → (runDFrom e c nb k st ss).calls.length = ss.length)
+      ∧ (runDFrom e c nb k st ss).calls.length ≤ ss.length
+      ∧ (runDFrom e c nb k st ss).calls.map Prod.snd
+          = (List.range (runDFrom e c nb k st ss).calls.length).map (fun i => decide (((i + k : Nat) : Int) ≤ nb)) := by
+    intro ss
+    induction ss with
+    | nil => intro k st; simp [runDFrom]
+    | cons s ss ih =>
+      intro k st
+      simp only [runDFrom]
+      cases hst : stepD e c nb k st s with
+      | error err => simp
+      | ok S =>
+        obtain ⟨h1, h2, h3⟩ := ih (k + 1) (some S)
+        refine ⟨fun h => by simpa using h1 h, by simpa using h2, ?_⟩
+        simp only [List.map_cons, List.length_cons, List.range_succ_eq_map, List.map_map, h3]
+        simp only [isBurnInZ, Function.comp_def, List.cons.injEq, Nat.zero_add, true_and, List.map_inj_left]
+        intro a _
+        have : a + 1 + k = a + (k + 1) := by omega
+        rw [this]
+  simpa [runD] using key ss 1 none
+
+private theorem convexT_getElem? (ej cj : α) (v s t : List α) (i : Nat) (a b : α)
+    (h : convexT ej cj v s = some t) (hv : v[i]? = some a) (hs : s[i]? = some b) :
+    t[i]? = some (a * cj + ej * b) := by
+  unfold convexT bAdd at h
+  by_cases hl : v.length = s.length
+  · simp only [List.length_map, hl, if_true, Option.some.injEq] at h
+    subst h
+    simp [List.getElem?_zipWith, hv, hs]
+  · simp only [List.length_map, hl, if_false] at h
+    match v, s, hv, hs, hl, h with
+    | [], _, hv, _, _, _ => simp at hv
+    | _, [], _, hs, _, _ => simp at hs
+    | [a0], s, hv, hs, _, h =>
+      have hi : i = 0 := by
+        cases i with
+        | zero => rfl
+        | succ i => simp at hv
+      subst hi
+      simp only [List.getElem?_cons_zero, Option.some.injEq] at hv
+      subst hv
+      simp only [List.map_cons, List.map_nil, Option.some.injEq] at h
+      subst h
+      simp [hs]
+    | a0 :: a1 :: v', [b0], hv, hs, _, h =>
+      have hi : i = 0 := by
+        cases i with
+        | zero => rfl
+        | succ i => simp at hs
+      subst hi
+      simp only [List.getElem?_cons_zero, Option.some.injEq] at hv hs
+      subst hv; subst hs
+      simp only [List.map_cons, List.map_nil, Option.some.injEq] at h
+      subst h
+      simp
+    | a0 :: a1 :: v', b0 :: b1 :: s', _, _, hl, h => simp at h
+
+private theorem mstepD_lookup_some {κ : Type} [DecidableEq κ] (ej cj : α) (new old r : Dict κ α)
+    (h : mstepD ej cj new old = .ok r) (key : κ) (v : List α) (hv : lookup key old = some v) :
+    ∃ s t, lookup key new = some s ∧ convexT ej cj v s = some t ∧ lookup key r = some t := by
+  induction old generalizing r with
+  | nil => simp [lookup] at hv
+  | cons kv old ih =>
+    obtain ⟨k, v'⟩ := kv
+    simp only [mstepD] at h
+    split at h
+    · cases h
+    · rename_i s hs
+      split at h
+      · cases h
+      · rename_i t ht
+        split at h
+        · cases h
+        · rename_i r' hr'
+          cases h
+          simp only [lookup] at hv ⊢
+          by_cases hk : k = key
+          · subst hk
+            simp only [if_true, Option.some.injEq] at hv
+            subst hv
+            exact ⟨s, t, hs, ht, by simp⟩
+          · simp only [hk, if_false] at hv ⊢
+            exact ih r' hr' hv
+
+/-- **Bridge to Part 1–3.**  Take any run on dictionaries of tensors that completes, a key and an entry index
+    that every iteration's statistics have, with values `xs`.  Then that entry of what the maximisation receives
+    follows the SCALAR schedule on `xs`, flags included — so every theorem above (memory-less phase, convex step,
+    unrolled weights, running mean, forgetting, hull) holds for each entry of each key; entries and keys never
+    mix.  No hypothesis on shapes or on the other keys: when broadcasting happened the entry still follows it. -/
+theorem runD_entrywise {κ : Type} [DecidableEq κ] (e : Nat → α) (nb : Nat) (ss : List (Dict κ α))
+    (key : κ) (i : Nat) (xs : List α)
+    (hx : ss.map (fun d => entry d key i) = xs.map some)
+    (hok : (runD e (fun j => 1 - e j) (nb : Int) ss).err = none) :
+    (runD e (fun j => 1 - e j) (nb : Int) ss).calls.map (fun cl => (entry cl.1 key i, cl.2))
+      = (run e nb xs).map (fun cl => (some cl.1, cl.2)) := by
+  have key' : ∀ (ss : List (Dict κ α)) (xs : List α) (k : Nat) (st : Option (Dict κ α)) (prev : α),
+      ss.map (fun d => entry d key i) = xs.map some →
+      (k ≤ nb + 1 ∨ ∃ S, st = some S ∧ entry S key i = some prev) →
+      (runDFrom e (fun j => 1 - e j) (nb : Int) k st ss).err = none →
+      (runDFrom e (fun j => 1 - e j) (nb : Int) k st ss).calls.map (fun cl => (entry cl.1 key i, cl.2))
+        = (runFrom e nb k prev xs).map (fun cl => (some cl.1, cl.2)) := by
+    intro ss
+    induction ss with
+    | nil =>
+      intro xs k st prev hx _ _
+      cases xs with
+      | nil => simp [runDFrom, runFrom]
+      | cons _ _ => simp at hx
+    | cons d ss ih =>
+      intro xs k st prev hx hst hok
+      cases xs with
+      | nil => simp at hx
+      | cons x xs =>
+        simp only [List.map_cons, List.cons.injEq] at hx
+        obtain ⟨hd, hx'⟩ := hx
+        obtain ⟨hm, hb, hlag⟩ := memorylessZ_natCast k nb
+        simp only [runDFrom] at hok ⊢
+        by_cases hml : memoryless k nb = true
+        · -- memory-less: the dictionary is replaced, the scalar run takes `x`
+          have hstep : stepD e (fun j => 1 - e j) (nb : Int) k st d = .ok d := by
+            unfold stepD; rw [hm, hml]; rfl
+          rw [hstep] at hok ⊢
+          simp only [runFrom, List.map_cons, hb]
+          have hS : stepStats e nb k prev x = x := by unfold stepStats; rw [hml]; rfl
+          rw [hS, hd]
+          congr 1
+          exact ih xs (k + 1) (some d) x hx' (Or.inr ⟨d, rfl, hd⟩) hok
+        · have hk : ¬ (k ≤ nb + 1) := by
+            intro hk
+            apply hml
+            unfold memoryless isBurnIn
+            by_cases h1 : k ≤ nb
+            · simp [h1]
+            · have : k = 1 + nb := by omega
+              simp [this]
+          obtain ⟨S, rfl, hS⟩ := hst.resolve_left hk
+          have hml' : memoryless k nb = false := by simpa using hml
+          cases hstep : stepD e (fun j => 1 - e j) (nb : Int) k (some S) d with
+          | error err => rw [hstep] at hok; simp at hok
+          | ok r =>
+            rw [hstep] at hok
+            simp only at hok ⊢
+            have hmd : mstepD (e (k - nb)) (1 - e (k - nb)) d S = .ok r := by
+              unfold stepD at hstep
+              rw [hm, hml', hlag] at hstep
+              simpa using hstep
+            -- the entry of the kept dictionary and of the new statistics
+            obtain ⟨v, hv, hvi⟩ : ∃ v, lookup key S = some v ∧ v[i]? = some prev := by
+              unfold entry at hS
+              cases hl : lookup key S with
+              | none => simp [hl] at hS
+              | some v => exact ⟨v, rfl, by simpa [hl] using hS⟩
+            obtain ⟨s, hs, hsi⟩ : ∃ s, lookup key d = some s ∧ s[i]? = some x := by
+              unfold entry at hd
+              cases hl : lookup key d with
+              | none => simp [hl] at hd
+              | some s => exact ⟨s, rfl, by simpa [hl] using hd⟩
+            obtain ⟨s', t, hs', ht, hr⟩ := mstepD_lookup_some _ _ d S r hmd key v hv
+            rw [hs] at hs'; cases hs'
+            have hti := convexT_getElem? _ _ v s t i prev x ht hvi hsi
+            have hentry : entry r key i = some (stepStats e nb k prev x) := by
+              unfold entry stepStats
+              rw [hr, hml']
+              simpa using hti
+            simp only [runFrom, List.map_cons, hb, hentry]
+            congr 1
+            exact ih xs (k + 1) (some r) _ hx' (Or.inr ⟨r, rfl, hentry⟩) hok
+  cases xs with
+  | nil =>
+    cases ss with
+    | nil => simp [runD, runDFrom, run]
+    | cons _ _ => simp at hx
+  | cons x xs =>
+    simpa [runD, run] using key' ss (x :: xs) 1 none x hx (Or.inl (by omega)) hok
+
+end Dicts
+
+/-! ## Part 5 — the constructor: length of the memory-less phase, refusals -/
+
+/-- Python `int()` on a non-negative value is the floor … -/
+theorem truncZ_of_nonneg (x : ℚ) (h : 0 ≤ x) : truncZ x = ⌊x⌋ := by
+  unfold truncZ
+  rw [Rat.floor_def', Int.tdiv_eq_ediv_of_nonneg (Rat.num_nonneg.mpr h)]
+
+/-- … it is odd (`int(-x) = -int(x)`: truncation toward zero, not floor) … -/
+theorem truncZ_neg (x : ℚ) : truncZ (-x) = - truncZ x := by
+  unfold truncZ
+  rw [Rat.neg_num, Rat.den_neg_eq_den, Int.neg_tdiv]
+
+/-- … hence the ceiling on a non-positive value (a negative fraction or a negative `n_iter`). -/
+theorem truncZ_of_nonpos (x : ℚ) (h : x ≤ 0) : truncZ x = ⌈x⌉ := by
+  have := truncZ_of_nonneg (-x) (by linarith)
+  rw [truncZ_neg, Int.floor_neg] at this
+  omega
+
+/-- Rounding is never up: for a product `x ≥ 0` the length `nb` satisfies `nb ≤ x < nb + 1` (it is NOT
+    `round`: `x = 2.9` gives 2). -/
+theorem truncZ_bounds (x : ℚ) (h : 0 ≤ x) : 0 ≤ truncZ x ∧ (truncZ x : ℚ) ≤ x ∧ x < truncZ x + 1 := by
+  rw [truncZ_of_nonneg x h]
+  exact ⟨Int.floor_nonneg.mpr h, Int.floor_le x, Int.lt_floor_add_one x⟩
+
+/-- Monotone in the product (hence in the fraction, IEEE multiplication by a non-negative `n_iter` being
+    monotone), over all signs. -/
+theorem truncZ_mono (x y : ℚ) (h : x ≤ y) : truncZ x ≤ truncZ y := by
+  rcases le_total 0 x with hx | hx
+  · rw [truncZ_of_nonneg x hx, truncZ_of_nonneg y (le_trans hx h)]
+    exact Int.floor_le_floor h
+  · rcases le_total 0 y with hy | hy
+    · rw [truncZ_of_nonpos x hx, truncZ_of_nonneg y hy]
+      have h1 : ⌈x⌉ ≤ 0 := Int.ceil_le.mpr (by simpa using hx)
+      have h2 : 0 ≤ ⌊y⌋ := Int.floor_nonneg.mpr hy
+      omega
+    · rw [truncZ_of_nonpos x hx, truncZ_of_nonpos y hy]
+      exact Int.ceil_le_ceil h
+
+/-- an integral product is kept as it is (fractions `0` and `1`, `k/n_iter` when exact) -/
+theorem truncZ_intCast (n : ℤ) : truncZ (n : ℚ) = n := by
+  unfold truncZ; simp
+
+/-- **Acceptance, both directions** (repaired constructor).  It succeeds with length `nb` iff the step power passes
+    `0.5 < p ≤ 1`, `nb` is not negative, and either the count is `nb`, or there is no count and the product is
+    finite with `int` = `nb`. -/
+theorem ctor_accepts_iff (count : Option ℤ) (prod : Option Dbl) (pok : Bool) (nb : ℤ) :
+    ctorQ count prod pok = .ok nb
+      ↔ pok = true ∧ 0 ≤ nb
+        ∧ (count = some nb ∨ (count = none ∧ ∃ x, prod = some (.fin x) ∧ nb = truncZ x)) := by
+  unfold ctorQ nBurnQ intOfDbl
+  cases count with
+  | some c =>
+    cases pok
+    · simp
+    · by_cases h : c < 0
+      · simp [h]; intro h1 h2; omega
+      · simp [h]; intro h1; omega
+  | none =>
+    cases prod with
+    | none => simp
+    | some d =>
+      cases d with
+      | nan => simp
+      | inf => simp
+      | fin x =>
+        cases pok
+        · simp
+        · by_cases h : truncZ x < 0
+          · simp [h]; intro h1 h2; omega
+          · simp [h, eq_comm]; intro h1; omega
+
+/-- **Every accepted configuration has a memory-less phase of non-negative length** (full strength since the
+    repair of F27; before it only under the guard "count, or product, non-negative"). -/
+theorem burn_length_nonneg (count : Option ℤ) (prod : Option Dbl) (pok : Bool) (nb : ℤ)
+    (h : ctorQ count prod pok = .ok nb) : 0 ≤ nb :=
+  ((ctor_accepts_iff count prod pok nb).mp h).2.1
+
+/-- **Length of the memory-less phase from the fraction**: when no count is given and the double product
+    `frac * n_iter` is the finite value `x`, the constructor leaves `int(x)`; for `0 ≤ x ≤ n_iter` (every fraction
+    in `[0, 1]`: IEEE rounding of `frac * n_iter` cannot exceed the representable `n_iter`) the length lies in
+    `[0, n_iter]`, is at most `x` and misses it by less than one iteration. -/
+theorem burn_length_from_fraction (x : ℚ) (n : ℤ) (pok : Bool) (nb : ℤ) (h0 : 0 ≤ x) (hn : x ≤ n)
+    (h : ctorQ none (some (.fin x)) pok = .ok nb) :
+    nb = truncZ x ∧ 0 ≤ nb ∧ nb ≤ n ∧ (nb : ℚ) ≤ x ∧ x < nb + 1 := by
+  have hnb : nb = truncZ x := by
+    rcases ((ctor_accepts_iff _ _ _ _).mp h).2.2 with h1 | ⟨_, y, hy, hnb⟩
+    · cases h1
+    · simp only [Option.some.injEq, Dbl.fin.injEq] at hy
+      rw [hy]; exact hnb
+  obtain ⟨b0, b1, b2⟩ := truncZ_bounds x h0
+  refine ⟨hnb, hnb ▸ b0, ?_, hnb ▸ b1, hnb ▸ b2⟩
+  have : (nb : ℚ) ≤ n := le_trans (hnb ▸ b1) hn
+  exact_mod_cast this
+
+/-- Non-vacuity of the above, and the fractions `0`/`1`: accepted with lengths `0` and `n_iter`. -/
+example : ctorQ none (some (.fin 0)) true = .ok 0 ∧ ctorQ none (some (.fin 10)) true = .ok 10
+    ∧ ctorQ none (some (.fin (29 / 10))) true = .ok 2 := by decide +kernel
+
+/-- An explicit count always wins over the fraction: whatever the fraction (even one whose product is nan or
+    infinite) and `n_iter`, the derived length is the count, unchanged (an explicit `0` included: it is "given"). -/
+theorem count_has_priority (c : ℤ) (prod : Option Dbl) : nBurnQ (some c) prod = .ok c := rfl
+
+/-- the `FutureWarning` is emitted exactly when both a count and a fraction are given -/
+theorem warns_iff {β : Type} (count : Option ℤ) (frac : Option β) :
+    warnsDeprecated count frac = true ↔ (count ≠ none ∧ frac ≠ none) := by
+  cases count <;> cases frac <;> simp [warnsDeprecated]
+
+/-- **Refusal with the library's error, both directions**: `LeaspyAlgoInputError` iff neither count nor fraction
+    is given, or a length `nb` could be derived but the step power fails `0.5 < p ≤ 1` or `nb < 0`. -/
+theorem ctor_algoInput_iff (count : Option ℤ) (prod : Option Dbl) (pok : Bool) :
+    ctorQ count prod pok = .error .algoInput
+      ↔ (count = none ∧ prod = none)
+        ∨ (∃ nb, nBurnQ count prod = .ok nb ∧ (pok = false ∨ nb < 0)) := by
+  unfold ctorQ
+  cases hn : nBurnQ count prod with
+  | error err =>
+    unfold nBurnQ intOfDbl at hn
+    cases count with
+    | some c => simp at hn
+    | none =>
+      cases prod with
+      | none => simp at hn; subst hn; simp
+      | some d =>
+        cases d with
+        | nan => simp at hn; subst hn; simp
+        | inf => simp at hn; subst hn; simp
+        | fin x => simp at hn
+  | ok nb =>
+    have hne : ¬ (count = none ∧ prod = none) := by
+      rintro ⟨rfl, rfl⟩; simp [nBurnQ] at hn
+    cases pok
+    · simp
+    · by_cases h : nb < 0
+      · simp [h]
+      · simp [h, hne]
+
+/-- **The other two exits, both directions**: a raw `ValueError` (resp. `OverflowError`) iff there is no count and
+    the product is nan (resp. ±inf) — whatever the step power, which is tested later. -/
+theorem ctor_raw_error_iff (count : Option ℤ) (prod : Option Dbl) (pok : Bool) :
+    (ctorQ count prod pok = .error .valueError ↔ (count = none ∧ prod = some .nan))
+    ∧ (ctorQ count prod pok = .error .overflowError ↔ (count = none ∧ prod = some .inf)) := by
+  unfold ctorQ nBurnQ intOfDbl
+  cases count with
+  | some c => cases pok <;> by_cases h : c < 0 <;> simp [h]
+  | none =>
+    cases prod with
+    | none => simp
+    | some d =>
+      cases d with
+      | nan => simp
+      | inf => simp
+      | fin x => cases pok <;> by_cases h : truncZ x < 0 <;> simp [h]
+
+/-- **Finding F27 (fixed in 9714692), the old rule refuted.**  The constructor as it was (`ctorQOld`) violated
+    "every accepted configuration has a memory-less phase of non-negative length": fraction `-0.55`, `n_iter = 10`,
+    power fine — accepted with length `-5` (`int(-5.5)`), the explicit count `-3` likewise, and the run then aborts
+    at its first iteration (`runD_attributeError_iff`). -/
+theorem negative_burn_in_accepted_counterexample :
+    ctorQOld none (some (.fin (-11 / 2))) true = .ok (-5) ∧ ctorQOld (some (-3)) none true = .ok (-3)
+    ∧ (runD (fun j => (1 : ℚ) / j) (fun j => 1 - (1 : ℚ) / j) (-5) [[("a", [1])]]).err = some .attributeError := by
+  refine ⟨by decide +kernel, by decide +kernel, by decide +kernel⟩
+
+/-- **F27, the repaired rule**: whenever the derived or explicit length is negative the constructor now refuses with
+    the library's error, whatever the power; the two witnesses above are refused. -/
+theorem negative_burn_in_refused (count : Option ℤ) (prod : Option Dbl) (pok : Bool) (nb : ℤ)
+    (h : nBurnQ count prod = .ok nb) (hneg : nb < 0) : ctorQ count prod pok = .error .algoInput :=
+  (ctor_algoInput_iff count prod pok).mpr (Or.inr ⟨nb, h, Or.inr hneg⟩)
+
+example : ctorQ none (some (.fin (-11 / 2))) true = .error .algoInput
+    ∧ ctorQ (some (-3)) none true = .error .algoInput := by decide +kernel
+
+/-- The repair changes nothing else: on every configuration the old constructor accepted with a non-negative
+    length the two agree, and every other outcome of the old constructor (all its refusals) is unchanged. -/
+theorem ctor_repair_conservative (count : Option ℤ) (prod : Option Dbl) (pok : Bool) :
+    (∀ nb, ctorQOld count prod pok = .ok nb → 0 ≤ nb → ctorQ count prod pok = .ok nb)
+    ∧ (∀ err, ctorQOld count prod pok = .error err → ctorQ count prod pok = .error err) := by
+  unfold ctorQ ctorQOld
+  cases hn : nBurnQ count prod with
+  | error err => simp
+  | ok nb =>
+    cases pok
+    · simp
+    · constructor
+      · intro nb' h h0
+        simp only [if_true, Except.ok.injEq] at h
+        subst h
+        have : ¬ nb < 0 := by omega
+        simp [this]
+      · intro err h; simp at h
+
+/-- **An accepted configuration never aborts with `AttributeError`**: run with the length the repaired constructor
+    left, on any statistics (dictionaries of tensors of any keys and shapes), any steps.  (`KeyError` /
+    `RuntimeError` remain possible, exactly as `mstepD_error_iff` says.) -/
+theorem accepted_never_attributeError {κ : Type} [DecidableEq κ] (count : Option ℤ) (prod : Option Dbl) (pok : Bool)
+    (nb : ℤ) (h : ctorQ count prod pok = .ok nb) (e c : Nat → α) (ss : List (Dict κ α)) :
+    (runD e c nb ss).err ≠ some .attributeError := by
+  intro habs
+  have := ((runD_attributeError_iff e c nb ss).mp habs).1
+  have := burn_length_nonneg count prod pok nb h
+  omega
+
+/-! ## Non-vacuity and observations (concrete instances, decided by the kernel) -/
+
+/-- weights for nb = 1, power 1, iterations 1 … 4: the running mean over iterations 2 … k -/
+example : (List.range 4).map (fun k => (List.range 4).map (fun j =>
+      weight (fun j => (1 : ℚ) / j) (fun j => 1 - (1 : ℚ) / j) 1 (k + 1) (j + 1)))
+    = [[1, 0, 0, 0], [0, 1, 0, 0], [0, 1/2, 1/2, 0], [0, 1/3, 1/3, 1/3]] := by decide +kernel
+
+/-- the unrolled form on a concrete run (steps 1/j², nb = 1) -/
+example : ((run (fun j => (1 : ℚ) / (j * j)) 1 [5, 1, 2, 3]).map Prod.fst)[3]?
+    = some (unrolled (fun j => (1 : ℚ) / (j * j)) (fun j => 1 - (1 : ℚ) / (j * j)) 1 4 [5, 1, 2, 3]) := by
+  decide +kernel
+
+/-- Observation (double rounding): the fraction 0.29 of 100 iterations is 28, not 29 — the double product
+    `0.29 * 100` is `28.999999999999996…` (exact value below) and `int` truncates. -/
+example : truncZ (8162774324609023 / 281474976710656) = 28 ∧ truncZ ((29 : ℚ) / 100 * 100) = 29 := by
+  decide +kernel
+
+/-- a key only the new statistics have is dropped; a kept key missing from them is a `KeyError`; a length-1
+    tensor is broadcast silently; incompatible lengths are a `RuntimeError` -/
+example : (runD (fun j => (1 : ℚ) / j) (fun j => 1 - (1 : ℚ) / j) 1
+      [[("a", [1, 2])], [("a", [3, 4])], [("b", [9]), ("a", [5, 8])], [("a", [7])]]).calls.map Prod.fst
+    = [[("a", [1, 2])], [("a", [3, 4])], [("a", [4, 6])], [("a", [5, 19/3])]] := by decide +kernel
+example : (runD (fun j => (1 : ℚ) / j) (fun j => 1 - (1 : ℚ) / j) 0 [[("a", [1]), ("b", [2])], [("a", [3])]]).err
+    = some .keyError := by decide +kernel
+example : (runD (fun j => (1 : ℚ) / j) (fun j => 1 - (1 : ℚ) / j) 0 [[("a", [1, 2])], [("a", [3, 4, 5])]]).err
+    = some .runtimeError := by decide +kernel
+
+/-- the hypotheses of `runD_entrywise` are satisfiable: two keys, entry 1 of key "b" -/
+example : [[("a", [1]), ("b", [2, 3])], [("b", [4, 5]), ("a", [6])]].map (fun d => entry d "b" 1)
+    = ([3, 5] : List ℚ).map some
+    ∧ (runD (fun j => (1 : ℚ) / j) (fun j => 1 - (1 : ℚ) / j) ((0 : ℕ) : ℤ)
+        [[("a", [1]), ("b", [2, 3])], [("b", [4, 5]), ("a", [6])]]).err = none := by decide +kernel
 
 /-- Non-vacuity: a concrete run (nb = 2, five iterations) — the flags and the memory-less
     prefix are as stated. -/
